@@ -226,7 +226,7 @@ def run(ctx):
         sc = Scenario(0.1, ScenarioID(), author="a", tags={Tag.URBAN}, affiliation="b", source="c")
         sc.add_objects([copy.deepcopy(l) for l in lanelets])
         pool = {o.obstacle_id: copy.deepcopy(o) for o in obstacles}
-        contained, assigned, center_only = set(), set(), set()
+        contained, assigned, center_only, needs_complete = set(), set(), set(), set()
         removed_before = set()
         trace = []
         for op, arg in hist:
@@ -275,7 +275,11 @@ def run(ctx):
                                     pass
                     if not center:
                         for oid in (ids or contained):
-                            if all((oid, t, "shape") in assigned for t in horizon(pool[oid])):
+                            if times is None:
+                                needs_complete.discard(oid)
+                            # (after its prediction was replaced only a COMPLETE assignment is promised to replace what
+                            # was registered for the old horizon; one restricted to given time steps touches only those)
+                            if all((oid, t, "shape") in assigned for t in horizon(pool[oid])) and oid not in needs_complete:
                                 center_only.discard(oid)
                 elif op == "move":
                     # the obstacle is moved through its public method; what was recorded is out of date until the next
@@ -301,6 +305,7 @@ def run(ctx):
                     ob.update_prediction(TrajectoryPrediction(Trajectory(keep[0].time_step, keep), ob.prediction.shape))
                     assigned = {a for a in assigned if a[0] != arg}
                     center_only.add(arg)
+                    needs_complete.add(arg)
                 elif op in ("remove", "remove-list"):
                     keys = [arg] if op == "remove" else list(arg)
                     keys = [k for k in keys if k in contained]
@@ -310,6 +315,7 @@ def run(ctx):
                     sc.remove_obstacle(pool[keys[0]] if op == "remove" else [pool[k] for k in keys])
                     for k in keys:
                         contained.discard(k)
+                        needs_complete.discard(k)
                         removed_before.add(k)
                         center_only.discard(k)
                         assigned = {a for a in assigned if a[0] != k} | {a for a in assigned if a[0] == k}
